@@ -175,6 +175,17 @@ def run_trace_job(pid, job, seed, tier, tag=""):
             "counts": s, "cover": r["cover"], "trace": trace, "gen": gen, "wall": time.time() - t0}
 
 
+def run_corpus_job(pid, script, driver="cache"):
+    """re-execute a minimized past failure against the current implementation"""
+    d = os.path.join(BUILD, "traces", pid)
+    os.makedirs(d, exist_ok=True)
+    name = "corpus-" + os.path.basename(script)
+    trace = os.path.join(d, name + ".trace")
+    gen = ["replay-cache", "--script", script]
+    job = {"name": name, "driver": driver, "gen": lambda tier, seed: gen}
+    return run_trace_job(pid, job, 0, "quick", tag="")
+
+
 def trace_stats(path, max_samples=3):
     """distinct non-comment lines, and a few samples"""
     seen = set()
@@ -277,8 +288,11 @@ def main(argv):
     oracle_results = []
     if ok and okl:
         jobs = [(j, seed + k) for j in spec["jobs"] for k in range(j.get("seeds", {}).get(tier, 1))]
+        corpus_dir = os.path.join(VERIF, "corpus", pid)
+        scripts = sorted(os.path.join(corpus_dir, f) for f in os.listdir(corpus_dir) if f.endswith(".script")) if os.path.isdir(corpus_dir) else []
         with ThreadPoolExecutor(max_workers=14) as ex:
-            futs = [ex.submit(run_trace_job, pid, j, s, tier) for j, s in jobs]
+            futs = [ex.submit(run_corpus_job, pid, sc) for sc in scripts]
+            futs += [ex.submit(run_trace_job, pid, j, s, tier) for j, s in jobs]
             for f in futs:
                 results.append(f.result())
         for r in results:
